@@ -20,3 +20,47 @@ package fclient
 //@   property C16
 //@   ensures control: (err == nil) <==> ((network == "tcp4" || network == "tcp6") && splitOK(address) && ipOK(splitHost(address)) && isAllowedSpec(ipBytes(splitHost(address)), allowNetworks, denyNetworks))
 //@   assigns nothing
+
+// ---------------------------------------------------------------- C13: federation request authentication
+
+//@ func isSafeInHTTPQuotedString
+//@   property C13
+//@   ensures qdtext: result <==> (forall i int :: 0 <= i && i < len(text) ==> qdtextByte(text[i]))
+//@   loop 1: invariant 0 <= i && i <= len(text) && (forall j int :: 0 <= j && j < i ==> qdtextByte(text[j]))
+//@   assigns nothing
+
+//@ func ParseAuthorization
+//@   trusted
+//@   assigns nothing
+
+//@ func VerifyHTTPRequest
+//@   property C13
+//@   purecallbacks
+//@   requires req != nil && req.URL != nil && req.Body != nil && keys != nil && unixNano(now) >= 0
+//@   ensures parsed: result[1].Code == 200 ==> (called(readHTTPRequest) && ret(readHTTPRequest, 1) == nil && result[0] == ret(readHTTPRequest, 0))
+//@   ensures origin: result[1].Code == 200 ==> (result[0].fields.Origin != "" && serverNameOK(string(result[0].fields.Origin)))
+//@   ensures addressed-to-us: result[1].Code == 200 ==> (result[0].fields.Destination == destination || (isLocalServerName != nil && isLocalServerName(result[0].fields.Destination)))
+//@   ensures signature-checked: result[1].Code == 200 ==> (called(VerifyJSONs) && ret(VerifyJSONs, 1) == nil && ret(VerifyJSONs, 0)[0].Error == nil)
+//@   calls VerifyJSONs signed-by-origin-now-strict: len(requests) == 1 && requests[0].ServerName == ret(readHTTPRequest, 0).fields.Origin && requests[0].ValidityCheckingFunc == gomatrixserverlib.StrictValiditySignatureCheck && requests[0].AtTS == unixNano(now) / 1000000 && requests[0].Message == ret(Marshal, 0)
+//@   calls Marshal signed-object: true
+
+//@ func readHTTPRequest
+//@   property C13
+//@   requires req != nil && req.URL != nil && req.Body != nil
+//@   ensures method-uri: err == nil ==> (result[0] != nil && result[0].fields.Method == req.Method && result[0].fields.RequestURI == extcall("(*net/url.URL).RequestURI", req.URL))
+//@   ensures json-body: (err == nil && result[0].fields.Content != nil) ==> (mediaTypeOK(extcall("(net/http.Header).Get", req.Header, "Content-Type")) && mediaTypeOf(extcall("(net/http.Header).Get", req.Header, "Content-Type")) == "application/json" && utf8Valid(str(result[0].fields.Content)))
+//@   loop 1: invariant 0 <= idx(1) && idx(1) <= len(req.Header["Authorization"])
+//@   loop 1: invariant result.fields.Signatures != nil ==> (result.fields.Origin != "" && get(result.fields.Signatures, result.fields.Origin) != nil && result.fields.Origin in result.fields.Signatures)
+
+//@ func (*FederationRequest).Sign
+//@   property C13
+//@   requires r != nil
+//@   ensures other-signer-refused: (old(r.fields.Origin) != "" && old(r.fields.Origin) != serverName) ==> err != nil
+//@   calls SignJSON origin-signs-all-fields: signingName == string(serverName) && keyID == old(keyID) && message == ret(Marshal, 0)
+
+//@ func (*FederationRequest).HTTPRequest
+//@   property C13
+//@   requires r != nil
+//@   ensures uri-round-trips: err == nil ==> extcall("(*net/url.URL).RequestURI", result[0].URL) == r.fields.RequestURI
+//@   calls Add header-only-if-quotable: key == "Authorization" && allQd(string(r.fields.Origin)) && allQd(string(r.fields.Destination))
+//@   calls NewRequest method-and-target: method == r.fields.Method
